@@ -36,7 +36,7 @@ theorem defined_congr {l : Label} : Defined ns l ↔ Defined ns' l := by
   · rintro ⟨n, hn, h⟩; exact ⟨n, (hm n).mp hn, h⟩
   · rintro ⟨n, hn, h⟩; exact ⟨n, (hm n).mpr hn, h⟩
 
-theorem conflict_congr : Conflict ns ↔ Conflict ns' := by
+theorem conflict_congr (ws : Bytes) : Conflict ws ns ↔ Conflict ws ns' := by
   constructor
   · rintro ⟨t, u, ht, hu, hne, hno, h⟩
     exact ⟨t, u, (hm _).mp ht, (hm _).mp hu, hne,
@@ -64,7 +64,7 @@ theorem valid_perm (ws : Bytes) {ps ps' : List Pkg} (hp : (allNodes ps).Perm (al
   · intro x y hd
     exact (defined_congr hm).mp (h.depsDefined x y ((dep_congr hm).mpr hd))
   · intro x hx; exact h.noCycle x ((reach_congr hm).mpr hx)
-  · intro hc; exact h.noConflict ((conflict_congr hm).mpr hc)
+  · intro hc; exact h.noConflict ((conflict_congr hm ws).mpr hc)
   · intro t ht; exact h.inputs t ((hm _).mpr ht)
   · intro t ht; exact h.outputs t ((hm _).mpr ht)
   · intro hb; exact h.testDeps ((badTestDep_congr hm).mpr hb)
@@ -77,8 +77,8 @@ def Spec.hasDefect (ws : Bytes) (ns : List Node) : Kind → Prop
   | .unknownDep => ¬ DepsDefined ns
   | .selfLoop => ∃ n ∈ ns, n.label ∈ n.deps
   | .cycle => ¬ NoCycle ns
-  | .conflict => Conflict ns
-  | .inputEscape => ∃ t, Node.target t ∈ ns ∧ ∃ i ∈ t.inputs, InputEscapes i
+  | .conflict => Conflict ws ns
+  | .inputEscape => ∃ t, Node.target t ∈ ns ∧ ∃ i ∈ t.checkedInputs, InputEscapes i
   | .outputEscape => ∃ t, Node.target t ∈ ns ∧ ∃ o ∈ t.outs, OutputEscapes ws t o
   | .testDep => BadTestDep ns
   | .testNoCommand => ∃ t, Node.target t ∈ ns ∧ t.isTest = true ∧ t.hasCmd = false
@@ -108,9 +108,10 @@ theorem edgeErrors_some {ns : List Node} {k : Kind} (h : edgeErrors ns = some k)
   · exact .inl ⟨rfl, fun hdef => hnd (hdef n.label d ⟨n, hn, rfl, hd⟩)⟩
   · exact .inr ⟨rfl, n, hn, hs⟩
 
-theorem mem_inputErrors {t : Target} {k : Kind} (h : k ∈ inputErrors t) :
-    k = .inputEscape ∧ ∃ i ∈ t.inputs, InputEscapes i := by
+theorem mem_inputErrors {t : Target} {k : Kind} (h : k ∈ inputErrors Cfg.current t) :
+    k = .inputEscape ∧ ∃ i ∈ t.checkedInputs, InputEscapes i := by
   unfold inputErrors at h
+  simp only [Cfg.current, if_true] at h
   obtain ⟨i, hi, hk⟩ := List.mem_filterMap.mp h
   by_cases ha : isAbs i = true
   · simp only [ha, if_true, Option.some.injEq] at hk
